@@ -42,6 +42,7 @@ type c09Harness struct {
 	mu        sync.Mutex
 	unauthPub []string // subjects published by nc2
 	loginExp  []loginExpect
+	submitted *[2]string // e-mail and password of the login request in progress, as submitted over HTTP
 }
 
 type loginExpect struct {
@@ -66,9 +67,17 @@ func (h *c09Harness) observe(ev nats.BusEvent) {
 			}
 			e, _ := pts.Find(data.PointTypeEmail, "")
 			p, _ := pts.Find(data.PointTypePass, "")
-			ids := h.eligible(e.Text, p.Text)
+			// the reference decides on the credentials as they were submitted over HTTP (a handler that rewrites them
+			// before asking the store would otherwise rewrite the expectation as well), at the instant the store is asked
+			em, pw := e.Text, p.Text
 			h.mu.Lock()
-			h.loginExp = append(h.loginExp, loginExpect{e.Text, p.Text, len(ids) > 0, ids})
+			if h.submitted != nil {
+				em, pw = h.submitted[0], h.submitted[1]
+			}
+			h.mu.Unlock()
+			ids := h.eligible(em, pw)
+			h.mu.Lock()
+			h.loginExp = append(h.loginExp, loginExpect{em, pw, len(ids) > 0, ids})
 			h.mu.Unlock()
 		}
 	}
@@ -244,8 +253,12 @@ func runC09(s *Sim) {
 			before := len(h.loginExp)
 			h.mu.Unlock()
 			t0 := time.Now()
+			h.mu.Lock()
+			h.submitted = &[2]string{u.email, pass}
+			h.mu.Unlock()
 			rec := doReq(h.h1, "POST", "/v1/auth", "", false, "", url.Values{"email": {u.email}, "password": {pass}})
 			h.mu.Lock()
+			h.submitted = nil
 			if len(h.loginExp) != before+1 {
 				h.mu.Unlock()
 				if rec.Code != http.StatusInternalServerError {
@@ -296,6 +309,9 @@ func runC09(s *Sim) {
 		case 0: // new user under a container
 			nid++
 			u := user{fmt.Sprintf("u%d", nid), fmt.Sprintf("u%d@x.io", nid), fmt.Sprintf("pw%d", nid)}
+			if wl.Chance(1, 3) {
+				u.email = fmt.Sprintf("U%d@X.io", nid) // e-mails are compared as stored, letter case included
+			}
 			users = append(users, u)
 			parent := containers[wl.Draw(len(containers))]
 			places = append(places, placement{parent, u.id})
@@ -354,6 +370,14 @@ func runC09(s *Sim) {
 			pass := u.pass
 			if wl.Chance(1, 4) {
 				pass = pass + "x"
+			}
+			switch wl.Draw(8) { // near-misses of the e-mail: no stored user has them, so no token may be issued for them
+			case 0:
+				u.email = strings.ToLower(u.email)
+			case 1:
+				u.email = strings.ToUpper(u.email)
+			case 2:
+				u.email = " " + u.email + " "
 			}
 			doLogin(u, pass)
 		case 7: // login with an unknown e-mail / empty credentials
